@@ -1,8 +1,9 @@
 import FgaVerif.Model.PGraph
 import FgaVerif.Proofs.PGraphBuild
 import FgaVerif.Proofs.PGraphCycles
+import FgaVerif.Proofs.PGraphFaithful
 /-!
-# C17 — plain model graph: faithful, reversible, stable DOT, sound path queries
+# C17 — plain model graph: faithful, reversible, stable DOT, sound path queries, label lookup
 
 About the port of the plain graph (`Model/PGraph.lean`; gonum's multigraph is modelled by its observable
 content: nodes with ids in creation order, lines with per-(from,to) ids in creation order; tied to the
@@ -48,6 +49,32 @@ the all-pairs reachability matrix and the two cycle flags).  Proved for **every*
   - `flags_exact` — exact meaning of both flags on a `LinesValid` graph; `compile_flag_sound`,
     `compile_flag_computed_walk` — the compile-time flag is only set when a simple cycle over two or more
     nodes runs along computed lines only (no hypothesis on the graph).
+
+* label lookup and faithfulness of the lines to the model (`Proofs/PGraphFaithful.lean`; `G.find?` is the port of
+  `GetNodeByLabel`, a lookup by *unique* label).  For **every** model:
+  - `built_graph_labels_unique`, `label_lookup_is_function` — unique labels are pairwise distinct and ids are
+    positions, so a label finds `n` iff `n` is the node registered under it.
+  For every model whose type names and restriction types contain no `#` and no `:` (`NamesOk`, decidable; needed:
+  `mBad`, `mBadOp` below):
+  - `label_lookup_finds_types_relations_wildcards` — every type name finds a type node, every defined `T#r` a
+    relation node, every wildcard restriction `T:*` of a relation with a direct assignment a wildcard node;
+  - `label_lookup_sound`, `label_lookup_plain_is_type`, `built_graph_nodes_from_model` — conversely a found node
+    has the kind its label's syntax dictates, non-operators are displayed by that label and come from the model
+    (`Prov`), operators are only found under `<operator>:<ordinal>`, never under their display label;
+  - `direct_restriction_has_line`, `computed_operand_has_line`, `ttu_has_line`, `operator_has_line`,
+    `built_graph_draws_every_type` — every occurrence (`Occ`) of a construct in the rewrite of `T#r` has its
+    line(s): direct lines from each restriction's node, a computed (top level) or rewrite (under an operator) line
+    from `T#x`, TTU lines labelled `T#ts` from `P#x` for each tupleset restriction type `P` that defines `x`
+    (others are skipped), a rewrite line from each operator's own node; each to the node the construct hangs off
+    (`ParentOf`: the relation node, or an operator node joined to it by a chain of rewrite lines).  These are
+    existence statements: repeated restrictions share one direct / TTU line (`mDup`);
+  - `computed_lines_count` — the rewrite/computed lines out of relation nodes are exactly as many as the
+    computed-userset leaves of all rewrites;
+  - `built_line_typed`, `lines_point_to_relations_or_operators` — conversely every line has the end-node kinds and
+    tupleset label its kind dictates, and points to a relation or operator node (type and wildcard nodes are
+    sources only: the graph is drawn from user types towards relations).
+  Not proved: for each single line, *which* occurrence of which rewrite it stems from (only its typing and, for
+  nodes, `Prov`); the count of direct and TTU lines (de-duplicated by design).
 
 That gonum's `topo.PathExistsIn` gives the same answers as the port's search is validated by the
 all-pairs correspondence, **not proved** (gonum is a parameter).  Likewise that gonum's
@@ -316,5 +343,281 @@ theorem chord_defeats_compile_flag :
 example : cycleFlags { nodes := [⟨0, "t#a", .typeAndRelation, "t#a"⟩], lines := [⟨0, 0, 0, .computed, ""⟩] } = none := by
   decide
 
+/-! ## label lookup and faithfulness of the lines (`Proofs/PGraphFaithful.lean`)
+
+`G.find?` is the port of `GetNodeByLabel`: a lookup in the map from *unique* labels to nodes (`getOrAddNode`
+registers every node under its unique label; for a type, relation or wildcard node that is the display label, for
+an operator node it is `<operator>:<ordinal>`, the stand-in for `<operator>:<ULID>`). -/
+
+open FgaVerif.Model in
+/-- **A(i)** the unique labels of a built graph are pairwise distinct, and ids are positions — for every model -/
+theorem built_graph_labels_unique (m : Model) :
+    (build m).nodes.Pairwise (fun a b => a.uniqueLabel ≠ b.uniqueLabel) ∧
+    ∀ (i : Nat) (h : i < (build m).nodes.length), ((build m).nodes[i]).id = i :=
+  ⟨(build_wf m).uniq, (build_wf m).ids⟩
+
+open FgaVerif.Model in
+/-- hence lookup is a function from labels onto the nodes: a label finds `n` iff `n` is the node of the graph
+    registered under it -/
+theorem label_lookup_is_function (m : Model) (l : String) (n : PNode) :
+    (build m).find? l = some n ↔ n ∈ (build m).nodes ∧ n.uniqueLabel = l :=
+  find?_iff (build m) (build_wf m) l n
+
+open FgaVerif.Model in
+/-- **A(ii)** for a model whose type names and restriction types contain no `#` and no `:` (`NamesOk`): every
+    type name finds a type node, every `type#relation` of a defined relation finds a relation node, every
+    wildcard restriction `T:*` of a relation whose rewrite contains a direct assignment finds a wildcard node;
+    each is labelled by the label it was looked up under -/
+theorem label_lookup_finds_types_relations_wildcards (m : Model) (hm : NamesOk m = true) (td : TypeDef)
+    (htd : td ∈ m.types) :
+    (∃ n, (build m).find? td.name = some n ∧ n.ntype = .specificType ∧ n.label = td.name) ∧
+    (∀ rel u, (rel, u) ∈ td.relations →
+      ∃ n, (build m).find? (td.name ++ "#" ++ rel) = some n ∧ n.ntype = .typeAndRelation ∧
+        n.label = td.name ++ "#" ++ rel) ∧
+    (∀ rel u top, (rel, u) ∈ td.relations → Occ u .this top → ∀ r ∈ restrOf td rel, r.wildcard = true → r.rel = "" →
+      ∃ n, (build m).find? (r.type ++ ":*") = some n ∧ n.ntype = .wildcard ∧ n.label = r.type ++ ":*") := by
+  refine ⟨build_lookup_type m hm td htd, fun rel u hr => build_lookup_relation m hm td htd rel u hr, ?_⟩
+  intro rel u top hr ho r hmem hw hrel
+  obtain ⟨_, _, h⟩ := build_direct m hm td htd rel u hr top ho
+  obtain ⟨n, a, b, c, _⟩ := h r hmem
+  have e1 : refLabel r = r.type ++ ":*" := by simp [refLabel, hw, hrel]
+  have e2 : refKind r = .wildcard := by simp [refKind, hw, hrel]
+  rw [e1] at a c; rw [e2] at b
+  exact ⟨n, a, b, c⟩
+
+open FgaVerif.Model in
+/-- **A(iii)** conversely (same hypothesis): a node found under label `l` is registered under `l`; its kind is the
+    syntactic kind of `l` (`classify`: contains `#` before any `:` — relation; `T:*` — wildcard; another `:` —
+    operator; neither — type); if it is not an operator it is displayed as `l` and `l` comes from the model
+    (`Prov`: a type name or the type of a plain restriction; `T:*` of a wildcard restriction; `T#r` of a defined
+    relation, of a userset restriction, or of a computed-userset leaf of a rewrite of `T`); if it is an operator,
+    `l` is `<its display label>:<k>` with `k` below the number of operators created -/
+theorem label_lookup_sound (m : Model) (hm : NamesOk m = true) (l : String) (n : PNode)
+    (h : (build m).find? l = some n) :
+    n.uniqueLabel = l ∧ n.ntype = classify l ∧
+    (n.ntype ≠ .operator → n.label = l ∧ Prov m l n.ntype) ∧
+    (n.ntype = .operator → ∃ k, k < (build m).opCount ∧ n.label ∈ opNames ∧ l = n.label ++ ":" ++ toString k) :=
+  build_lookup_sound m hm l n h
+
+open FgaVerif.Model in
+/-- so a display label without `#` and `:` (such as `union`) never finds an operator node -/
+theorem label_lookup_plain_is_type (m : Model) (hm : NamesOk m = true) (l : String) (hl : plain l = true) (n : PNode)
+    (h : (build m).find? l = some n) : n.ntype = .specificType ∧ n.label = l :=
+  build_lookup_plain m hm l hl n h
+
+open FgaVerif.Model in
+/-- the whole graph of a type: its node, and for every relation its node with the rewrite drawn below it
+    (`Drawn`, by recursion on the rewrite) -/
+theorem built_graph_draws_every_type (m : Model) (hm : NamesOk m = true) (td : TypeDef) (htd : td ∈ m.types) :
+    TypeDrawn m (build m) td :=
+  (build_spec m hm).2 td htd
+
+/-! `Occ u v top`: the construct `v` occurs in the rewrite `u`, at top level iff `top`.  `ParentOf g td rel top q`:
+    the relation node `p` is found under `td.name#rel`, is a relation node, and `q` is `p` itself (`top`) or an
+    operator node from which a chain of rewrite lines leads up to `p`.  `HasLine g s d k ts`: some line of `g` goes
+    from node `s` to node `d` with kind `k` and tupleset label `ts`. -/
+
+open FgaVerif.Model in
+/-- **B(i)** a direct assignment in the rewrite of `T#rel` draws, for every restriction of the relation's
+    metadata, a direct line from the node of the restriction (type, `type:*` or `type#rel`) to the node the
+    assignment hangs off.  Repeated restrictions (the same type with different conditions) share one line. -/
+theorem direct_restriction_has_line (m : Model) (hm : NamesOk m = true) (td : TypeDef) (htd : td ∈ m.types)
+    (rel : String) (u : Userset) (hr : (rel, u) ∈ td.relations) (top : Bool) (ho : Occ u .this top) :
+    ∃ q, ParentOf (build m) td rel top q ∧ ∀ r ∈ restrOf td rel,
+      ∃ n, (build m).find? (refLabel r) = some n ∧ n.ntype = refKind r ∧ n.label = refLabel r ∧
+        HasLine (build m) n q .direct "" :=
+  build_direct m hm td htd rel u hr top ho
+
+open FgaVerif.Model in
+/-- **B(ii)** a computed userset `x` in the rewrite of `T#rel` draws a line from `T#x`: a computed line to the
+    relation node at top level, a rewrite line to the operator node otherwise -/
+theorem computed_operand_has_line (m : Model) (hm : NamesOk m = true) (td : TypeDef) (htd : td ∈ m.types)
+    (rel : String) (u : Userset) (hr : (rel, u) ∈ td.relations) (x : String) (top : Bool)
+    (ho : Occ u (.computed x) top) :
+    ∃ q n, ParentOf (build m) td rel top q ∧ (build m).find? (td.name ++ "#" ++ x) = some n ∧
+      n.ntype = .typeAndRelation ∧ HasLine (build m) n q (if top then .computed else .rewrite) "" :=
+  build_computed m hm td htd rel u hr x top ho
+
+open FgaVerif.Model in
+/-- **B(iii)** a tuple-to-userset `x from ts` draws, for every restriction of the tupleset whose type `P` defines
+    `x` (`typeAndRelationExists`; other restriction types are skipped, as in the code), a TTU line from `P#x`
+    labelled `T#ts`.  Restrictions with the same type share one line. -/
+theorem ttu_has_line (m : Model) (hm : NamesOk m = true) (td : TypeDef) (htd : td ∈ m.types)
+    (rel : String) (u : Userset) (hr : (rel, u) ∈ td.relations) (ts x : String) (top : Bool)
+    (ho : Occ u (.ttu ts x) top) :
+    ∃ q, ParentOf (build m) td rel top q ∧ ∀ r ∈ restrOf td ts, typeAndRelationExists m r.type x = true →
+      ∃ n, (build m).find? (r.type ++ "#" ++ x) = some n ∧ n.ntype = .typeAndRelation ∧
+        HasLine (build m) n q .ttu (td.name ++ "#" ++ ts) :=
+  build_ttu m hm td htd rel u hr ts x top ho
+
+open FgaVerif.Model in
+/-- **B(iv)** every operator occurrence (union, intersection, exclusion, and the unset rewrite, whose operator
+    label is empty) has its own operator node with a rewrite line to its parent -/
+theorem operator_has_line (m : Model) (hm : NamesOk m = true) (td : TypeDef) (htd : td ∈ m.types)
+    (rel : String) (u : Userset) (hr : (rel, u) ∈ td.relations) (v : Userset) (hv : isOperator v = true) (top : Bool)
+    (ho : Occ u v top) :
+    ∃ q o, ParentOf (build m) td rel top q ∧ OpNode (build m) o (opLabel v) ∧ HasLine (build m) o q .rewrite "" :=
+  build_operator m hm td htd rel u hr v hv top ho
+
+
+open FgaVerif.Model in
+/-- **B(v)** multiplicity: the number of rewrite or computed lines whose source is a relation node (`relRC`) is
+    the number of computed-userset leaves of all rewrites of the model (`modelLeaves`): `parseComputed` adds its
+    line unconditionally, no other construct draws such a line.  (Direct and TTU lines are de-duplicated, so no
+    such count holds of them: `mDup` below.) -/
+theorem computed_lines_count (m : Model) (hm : NamesOk m = true) : relRC (build m) = modelLeaves m :=
+  build_relRC m hm
+
+open FgaVerif.Model in
+/-- conversely to B(i)–(iv), **every line is typed as its kind dictates** (`KindOk`): its end nodes exist, and
+    a direct line has an empty tupleset label, a non-operator source and a relation or operator target; a computed
+    line joins two relation nodes; a rewrite line goes from an operator node to a relation or operator node or
+    from a relation node to an operator node; a TTU line goes from a relation node to a relation or operator node
+    and is labelled `T#ts` for a type `T` of the model -/
+theorem built_line_typed (m : Model) (hm : NamesOk m = true) (l : PLine) (hl : l ∈ (build m).lines) :
+    ∃ s d, (build m).nodes[l.src]? = some s ∧ (build m).nodes[l.dst]? = some d ∧
+      KindOk m l.etype l.tupleset s.ntype d.ntype :=
+  build_LT m hm l hl
+
+open FgaVerif.Model in
+/-- **drawn from user types towards relations**: every line points to a relation node or an operator node; type
+    nodes and wildcard nodes have no incoming line -/
+theorem lines_point_to_relations_or_operators (m : Model) (hm : NamesOk m = true) (l : PLine)
+    (hl : l ∈ (build m).lines) (d : PNode) (hd : d ∈ (build m).nodes) (hid : d.id = l.dst) :
+    d.ntype = .typeAndRelation ∨ d.ntype = .operator := by
+  obtain ⟨s, d', _, hd', hk⟩ := build_LT m hm l hl
+  have := wf_getElem? (build m) (build_wf m) d hd
+  rw [hid, hd'] at this
+  cases this
+  cases he : l.etype <;> rw [he] at hk
+  · exact hk.2.2
+  · rcases hk.2 with h | h
+    · exact h.2
+    · exact Or.inr h.2
+  · exact hk.2.1
+  · exact Or.inl hk.2.2
+
+open FgaVerif.Model in
+/-- every node of a built graph satisfies the node invariant (`Good`: kind = syntactic kind of the unique label;
+    non-operators are displayed by their unique label and come from the model; operators are `<op>:<k>`) -/
+theorem built_graph_nodes_from_model (m : Model) (hm : NamesOk m = true) (n : PNode) (hn : n ∈ (build m).nodes) :
+    Good m (build m).opCount n :=
+  (build_spec m hm).1 n hn
+
+section FaithfulExamples
+open FgaVerif.Model
+
+/-! ### non-vacuity of the faithfulness theorems -/
+
+def tdUser : TypeDef := { name := "user" }
+/-- `type group  relations  define member: [user, user:*, group#member]` -/
+def tdGroup : TypeDef :=
+  { name := "group", relations := [("member", .this)],
+    md := some { relations := [("member", { restr := [{ type := "user" }, { type := "user", wildcard := true },
+                                                      { type := "group", rel := "member" }] })] } }
+/-- `type doc  relations  define editor: viewer  define parent: [group, user]
+     define viewer: [user] and member from parent` -/
+def tdDoc : TypeDef :=
+  { name := "doc",
+    relations := [("editor", .computed "viewer"), ("parent", .this),
+                  ("viewer", .inter [.this, .ttu "parent" "member"])],
+    md := some { relations := [("parent", { restr := [{ type := "group" }, { type := "user" }] }),
+                               ("viewer", { restr := [{ type := "user" }] })] } }
+def mEx : Model := { schema := "1.1", types := [tdUser, tdGroup, tdDoc] }
+def gEx : G :=
+  { nodes := [⟨0, "doc", .specificType, "doc"⟩, ⟨1, "doc#editor", .typeAndRelation, "doc#editor"⟩,
+              ⟨2, "doc#viewer", .typeAndRelation, "doc#viewer"⟩, ⟨3, "doc#parent", .typeAndRelation, "doc#parent"⟩,
+              ⟨4, "group", .specificType, "group"⟩, ⟨5, "user", .specificType, "user"⟩,
+              ⟨6, "intersection", .operator, "intersection:0"⟩,
+              ⟨7, "group#member", .typeAndRelation, "group#member"⟩, ⟨8, "user:*", .wildcard, "user:*"⟩],
+    lines := [⟨2, 1, 0, .computed, ""⟩, ⟨4, 3, 0, .direct, ""⟩, ⟨5, 3, 0, .direct, ""⟩, ⟨6, 2, 0, .rewrite, ""⟩,
+              ⟨5, 6, 0, .direct, ""⟩, ⟨7, 6, 0, .ttu, "doc#parent"⟩, ⟨5, 7, 0, .direct, ""⟩, ⟨8, 7, 0, .direct, ""⟩,
+              ⟨7, 7, 0, .direct, ""⟩],
+    opCount := 1 }
+theorem build_mEx : build mEx = gEx := by rfl
+theorem namesOk_mEx : NamesOk mEx = true := by decide
+
+theorem tdDoc_mem : tdDoc ∈ mEx.types := by simp [mEx]
+theorem tdGroup_mem : tdGroup ∈ mEx.types := by simp [mEx]
+
+/-- the hypotheses of the lookup theorem hold of `group`, and the nodes it promises are there -/
+example : ∃ n, (build mEx).find? "user:*" = some n ∧ n.ntype = .wildcard ∧ n.label = "user:*" :=
+  (label_lookup_finds_types_relations_wildcards mEx namesOk_mEx tdGroup tdGroup_mem).2.2 "member" .this true
+    (by simp [tdGroup]) (.here _) { type := "user", wildcard := true } (by simp [restrOf, relMeta, tdGroup, AList.find?]) rfl rfl
+example : (build mEx).find? "user:*" = some ⟨8, "user:*", .wildcard, "user:*"⟩ ∧
+    (build mEx).find? "doc" = some ⟨0, "doc", .specificType, "doc"⟩ ∧
+    (build mEx).find? "doc#viewer" = some ⟨2, "doc#viewer", .typeAndRelation, "doc#viewer"⟩ ∧
+    (build mEx).find? "intersection:0" = some ⟨6, "intersection", .operator, "intersection:0"⟩ ∧
+    (build mEx).find? "intersection" = none := by
+  rw [build_mEx]; decide
+
+/-- B(ii) at top level: `define editor: viewer` -/
+example : ∃ q n, ParentOf (build mEx) tdDoc "editor" true q ∧ (build mEx).find? "doc#viewer" = some n ∧
+    n.ntype = .typeAndRelation ∧ HasLine (build mEx) n q .computed "" :=
+  computed_operand_has_line mEx namesOk_mEx tdDoc tdDoc_mem "editor" (.computed "viewer") (by simp [tdDoc]) "viewer" true
+    (.here _)
+/-- B(i), B(iii), B(iv) under the intersection of `define viewer: [user] and member from parent` -/
+example : ∃ q, ParentOf (build mEx) tdDoc "viewer" false q ∧ ∀ r ∈ restrOf tdDoc "viewer",
+    ∃ n, (build mEx).find? (refLabel r) = some n ∧ n.ntype = refKind r ∧ n.label = refLabel r ∧
+      HasLine (build mEx) n q .direct "" :=
+  direct_restriction_has_line mEx namesOk_mEx tdDoc tdDoc_mem "viewer" (.inter [.this, .ttu "parent" "member"])
+    (by simp [tdDoc]) false (.inter (c := .this) (by simp) (.here _))
+example : restrOf tdDoc "viewer" = [{ type := "user" }] ∧ restrOf tdDoc "parent" = [{ type := "group" }, { type := "user" }] := by
+  decide
+example : ∃ q, ParentOf (build mEx) tdDoc "viewer" false q ∧ ∀ r ∈ restrOf tdDoc "parent",
+    typeAndRelationExists mEx r.type "member" = true →
+    ∃ n, (build mEx).find? (r.type ++ "#" ++ "member") = some n ∧ n.ntype = .typeAndRelation ∧
+      HasLine (build mEx) n q .ttu "doc#parent" :=
+  ttu_has_line mEx namesOk_mEx tdDoc tdDoc_mem "viewer" (.inter [.this, .ttu "parent" "member"]) (by simp [tdDoc])
+    "parent" "member" false
+    (.inter (c := .ttu "parent" "member") (by simp) (.here _))
+example : ∃ q o, ParentOf (build mEx) tdDoc "viewer" true q ∧ OpNode (build mEx) o "intersection" ∧
+    HasLine (build mEx) o q .rewrite "" :=
+  operator_has_line mEx namesOk_mEx tdDoc tdDoc_mem "viewer" (.inter [.this, .ttu "parent" "member"]) (by simp [tdDoc])
+    _ rfl true (.here _)
+
+/-- what `ttu_has_line` does not promise: `user` is a restriction of `parent` but does not define `member`, so no
+    `user#member` node exists and the only TTU line comes from `group#member` -/
+example : typeAndRelationExists mEx "user" "member" = false ∧ typeAndRelationExists mEx "group" "member" = true ∧
+    (build mEx).find? "user#member" = none ∧
+    (build mEx).lines.filter (fun l => l.etype == .ttu) = [⟨7, 6, 0, .ttu, "doc#parent"⟩] := by
+  rw [build_mEx]; decide
+
+/-- B(v): one computed-userset leaf, one computed line out of a relation node (the rewrite line out of the
+    intersection node is not counted) -/
+example : relRC (build mEx) = 1 ∧ modelLeaves mEx = 1 := by rw [build_mEx]; decide
+example : relRC (build mAcyc) = 3 ∧ modelLeaves mAcyc = 3 := by rw [build_mAcyc]; decide
+example : relRC (build mEx) = modelLeaves mEx := computed_lines_count mEx namesOk_mEx
+
+/-- repeated restrictions share a line: `define r: [user, user with c]` draws one direct line, so the number of
+    direct lines is not the number of restrictions -/
+def mDup : Model :=
+  { schema := "1.1",
+    types := [{ name := "doc", relations := [("r", .this)],
+                md := some { relations := [("r", { restr := [{ type := "user" }, { type := "user", cond := "c" }] })] } }] }
+example : (build mDup).lines = [⟨2, 1, 0, .direct, ""⟩] := by decide
+
+/-- why `NamesOk` is asked for.  A type named like a relation node: `a#b` finds the relation node of `a`, not a
+    type node (true of the code as well, for a hand-built model; the DSL and the validator exclude such names) … -/
+def mBad : Model :=
+  { schema := "1.1", types := [{ name := "a", relations := [("b", .computed "c")] }, { name := "a#b" }] }
+example : NamesOk mBad = false ∧
+    (build mBad).find? "a#b" = some ⟨1, "a#b", .typeAndRelation, "a#b"⟩ ∧ (build mBad).nodes.length = 3 := by decide
+/-- … and a type named like the port's stand-in for an operator's unique label (the code uses a fresh ULID there,
+    so this clash is an artefact of the port) -/
+def mBadOp : Model :=
+  { schema := "1.1", types := [{ name := "a", relations := [("b", .union [])] }, { name := "union:0" }] }
+example : NamesOk mBadOp = false ∧
+    (build mBadOp).find? "union:0" = some ⟨2, "union", .operator, "union:0"⟩ := by decide
+
+/-- the line typing theorem on the example, and what it says there: all targets are relation or operator nodes -/
+example : ∀ l ∈ (build mEx).lines, ∃ s d, (build mEx).nodes[l.src]? = some s ∧ (build mEx).nodes[l.dst]? = some d ∧
+    KindOk mEx l.etype l.tupleset s.ntype d.ntype :=
+  fun l hl => built_line_typed mEx namesOk_mEx l hl
+example : (build mEx).lines.map (·.dst) = [1, 3, 3, 2, 6, 6, 7, 7, 7] ∧
+    ((build mEx).nodes.filter (fun n => n.ntype == .typeAndRelation || n.ntype == .operator)).map (·.id) = [1, 2, 3, 6, 7] := by
+  rw [build_mEx]; decide
+
+end FaithfulExamples
 
 end FgaVerif.Props.C17
